@@ -35,7 +35,8 @@ EXTRA_TRUSTED = ["C13: nn_state.sample is an arbitrary function of (call number,
 REQUIRED_THEOREMS = ["C13_merge", "C13_merge_empty_left", "C13_merge_empty_right", "C13_stream", "C13_count", "C13_schedule",
                      "C13_system", "C13_system_init", "C13_system_dict", "C13_system_nodup", "C13_statistics_one_pass",
                      "C13_fromSamples", "C13_system_fromSamples", "C13_sample", "C13_system_empty",
-                     "C13_mean_stationary"]   # extension round X3: expectation of the reported mean under a stationary sampler
+                     "C13_mean_stationary",   # extension round X3: expectation of the reported mean under a stationary sampler
+                     "C13_gen_update_eq_model", "C13_gen_merge"]   # X6: translated _update_statistics = model
 THEOREMS = {
     "merge": "C13_merge, C13_merge_empty_left, C13_merge_empty_right",
     "stream": "C13_stream, C13_statistics_one_pass",
@@ -1153,8 +1154,17 @@ def one_case(ctx, case):
         stats_case(ctx, case)
 
 
+def gen_tie(ctx):
+    """translator tie (notes/translator.md): `_update_statistics` is re-translated from the source of the checked tree into Lean and
+    compared with the committed lean/QV/Gen/UpdateStatistics.lean, which `C13_gen_update_eq_model` proves equal to the model's
+    `updateStatistics` for all inputs; a textually different translation is re-proved in a scratch copy of the lake project"""
+    from . import gentie
+    return gentie.tie(ctx, "UpdateStatistics", "C13_gen_update_eq_model")
+
+
 def run(ctx):
     ctx.rule = RULE
+    gen_tie(ctx)
     for case in gen_cases(ctx, ctx.tier == "thorough"):
         one_case(ctx, case)
 
